@@ -25,7 +25,7 @@ def strat_worker(part, dims):
     if P.shape != (4096, hi):
         part.fail("sobol-shape", "batch(1,4096,%d) has shape %s" % (hi, P.shape), {"kind": "strat", "dims": [lo, hi]})
         return
-    if P.min() < 0 or P.max() >= 1:
+    if not (P.min() >= 0) or P.max() >= 1:
         part.fail("sobol-range", "coordinate outside [0,1): min %g max %g" % (P.min(), P.max()), {"kind": "strat", "dims": [lo, hi]})
     for m in range(0, 13):
         n = 1 << m
@@ -106,7 +106,7 @@ def window_worker(part, chunk, method, dims, budget=1.0):
             if B.shape != (k + 1, D):
                 part.fail("batch-shape:" + key, "%s batch(%d,%d,%d) has shape %s" % (method, s, s + k, D, B.shape), case)
                 continue
-            if B.min() < 0 or B.max() >= 1:
+            if not (B.min() >= 0) or B.max() >= 1:
                 part.fail("range:" + key, "%s batch(%d,%d,%d) leaves [0,1)" % (method, s, s + k, D), case)
             # singles: all seeds of the window if affordable, else its end points
             cost = (s + k) * D * (k + 1) if method == "sobol" else 0
@@ -121,7 +121,7 @@ def window_worker(part, chunk, method, dims, budget=1.0):
             # prefix consistency: depends only on (seed, dimension)
             if s > 1 and (s + k) * D <= 5e7 * budget:
                 F = batch(1, s + k, D)
-                if np.abs(F[s - 1:] - B).max() > tol:
+                if not (np.abs(F[s - 1:] - B).max() <= tol):
                     part.fail("window-vs-prefix:" + key, "%s: window [%d,%d] differs from the same seeds taken from [1,%d] (D=%d)" % (method, s, s + k, s + k, D), case)
             if not np.array_equal(batch(s, s + k, D), B):
                 part.fail("determinism:" + key, "%s: repeated call differs" % method, case)
@@ -129,7 +129,7 @@ def window_worker(part, chunk, method, dims, budget=1.0):
             if D in (1, 3) and k <= 8:
                 Q = S.quasirandom(k + 1, D, method=method, seed=s)
                 q1 = S.quasirandom(D, method=method, seed=s)
-                if not np.array_equal(Q, B) or np.abs(q1 - B[0]).max() > tol:
+                if not np.array_equal(Q, B) or not (np.abs(q1 - B[0]).max() <= tol):
                     part.fail("front-end:" + key, "quasirandom(%d,%d,%s,seed=%d) disagrees with the generators" % (k + 1, D, method, s), case)
             part.outcome((method, wkey, D > 1))
         part.state((method, s, k))
@@ -166,7 +166,7 @@ def frontend_history(part, depth):
                 got = S.quasirandom(n, D, method=method, seed=seed) if D is not None else S.quasirandom(n, method=method, seed=seed)
                 part.tr()
                 w = want[alphabet[k]]
-                if got.shape != w.shape or np.abs(got - w).max() > (0.0 if method == "sobol" else 1e-12):
+                if got.shape != w.shape or not (np.abs(got - w).max() <= 0.0 if method == "sobol" else 1e-12):
                     part.fail("front-end-history:%s-after-%s" % (method, alphabet[hist[step - 1]][0] if step else "start"),
                               "quasirandom%s returns other points than the %s generator after the call history %s"
                               % ((n, D, method, seed), method, [alphabet[j] for j in hist[:step]]), {"kind": "history", "hist": list(hist)})
@@ -195,9 +195,9 @@ def kgf_seed_zero(part):
             except Exception as e:
                 part.fail("kgf-seed0-raise", "Korobov generators raised %r for seed 0" % e, case)
                 continue
-            if B.shape != (k + 1, D) or np.abs(B - singles).max() > 1e-12 or B.min() < 0 or B.max() >= 1:
+            if B.shape != (k + 1, D) or not (np.abs(B - singles).max() <= 1e-12) or not (B.min() >= 0) or B.max() >= 1:
                 part.fail("kgf-seed0:batch-vs-single", "Korobov batch(0,%d,%d) differs from the single-point vectors" % (k, D), case)
-            if Q.shape != B.shape or np.abs(Q - B).max() > 1e-12 or np.abs(q1 - B[0]).max() > 1e-12:
+            if Q.shape != B.shape or not (np.abs(Q - B).max() <= 1e-12) or not (np.abs(q1 - B[0]).max() <= 1e-12):
                 part.fail("kgf-seed0:front-end", "quasirandom(%d,%d,'kgf',seed=0) does not return the points of seeds 0..%d" % (k + 1, D, k), case)
             part.outcome(("kgf0", D > 1))
     part.nstates(15)
@@ -241,7 +241,7 @@ def keyword_calls(part, _=None):
                     except Exception as e:
                         part.fail("keyword-call:raise:%s" % fname, "%s(%s) raised %r" % (fname, ", ".join([str(x) for x in pos] + ["%s=%s" % kv for kv in kw.items()]), e), case)
                         continue
-                    if got.shape != want.shape or np.abs(got - want).max() > 0:
+                    if got.shape != want.shape or not (np.abs(got - want).max() <= 0):
                         part.fail("keyword-call:%s" % fname, "%s(%s) differs from the positional call %s%s" % (fname, ", ".join([str(x) for x in pos] + ["%s=%s" % kv for kv in kw.items()]), fname, args), case)
             part.outcome(("kwcall", fname))
     # the front end with keywords
@@ -253,7 +253,7 @@ def keyword_calls(part, _=None):
         part.ev()
         want = S.quasirandom(kw["d1"], kw.get("d2"), kw["method"], kw["seed"])
         got = S.quasirandom(**kw)
-        if np.asarray(got).shape != np.asarray(want).shape or np.abs(np.asarray(got) - np.asarray(want)).max() > 0:
+        if np.asarray(got).shape != np.asarray(want).shape or not (np.abs(np.asarray(got) - np.asarray(want)).max() <= 0):
             part.fail("keyword-call:quasirandom", "quasirandom(**%r) differs from the positional call" % (kw,), {"kind": "kwcall", "fn": "quasirandom"})
     part.nstates(5)
 
